@@ -1,9 +1,13 @@
 
+val xorb : bool -> bool -> bool
+
 val negb : bool -> bool
 
 type nat =
 | O
 | S of nat
+
+val option_map : ('a1 -> 'a2) -> 'a1 option -> 'a2 option
 
 val fst : ('a1 * 'a2) -> 'a1
 
@@ -20,6 +24,12 @@ type comparison =
 
 val add : nat -> nat -> nat
 
+val mul : nat -> nat -> nat
+
+val sub : nat -> nat -> nat
+
+val eqb : bool -> bool -> bool
+
 type positive =
 | XI of positive
 | XO of positive
@@ -29,11 +39,20 @@ type n =
 | N0
 | Npos of positive
 
+type z =
+| Z0
+| Zpos of positive
+| Zneg of positive
+
 module Nat :
  sig
+  val eqb : nat -> nat -> bool
+
   val leb : nat -> nat -> bool
 
   val ltb : nat -> nat -> bool
+
+  val max : nat -> nat -> nat
  end
 
 module Pos :
@@ -47,6 +66,10 @@ module Pos :
 module Coq_Pos :
  sig
   val succ : positive -> positive
+
+  val add : positive -> positive -> positive
+
+  val add_carry : positive -> positive -> positive
 
   val pred_double : positive -> positive
 
@@ -64,6 +87,8 @@ module Coq_Pos :
   val sub_mask : positive -> positive -> mask
 
   val sub_mask_carry : positive -> positive -> mask
+
+  val mul : positive -> positive -> positive
 
   val size : positive -> positive
 
@@ -86,7 +111,11 @@ module N :
 
   val double : n -> n
 
+  val add : n -> n -> n
+
   val sub : n -> n -> n
+
+  val mul : n -> n -> n
 
   val compare : n -> n -> comparison
 
@@ -121,13 +150,36 @@ val ascii_of_N : n -> char
 
 val ascii_of_nat : nat -> char
 
+val n_of_digits : bool list -> n
+
+val n_of_ascii : char -> n
+
+val nat_of_ascii : char -> nat
+
 val map : ('a1 -> 'a2) -> 'a1 list -> 'a2 list
 
+val fold_right : ('a2 -> 'a1 -> 'a1) -> 'a1 -> 'a2 list -> 'a1
+
 val forallb : ('a1 -> bool) -> 'a1 list -> bool
+
+val combine : 'a1 list -> 'a2 list -> ('a1 * 'a2) list
+
+module Z :
+ sig
+  val opp : z -> z
+
+  val to_nat : z -> nat
+
+  val of_N : n -> z
+ end
 
 val eqb0 : char list -> char list -> bool
 
 val append : char list -> char list -> char list
+
+val length0 : char list -> nat
+
+val prefix : char list -> char list -> bool
 
 type err =
 | ErrValue
@@ -152,6 +204,8 @@ val mem_str : char list -> char list list -> bool
 
 val list_str_eqb : char list list -> char list list -> bool
 
+val concat_str : char list list -> char list
+
 val digit_char : nat -> char
 
 val dec_N_fuel : nat -> n -> char list -> char list
@@ -160,9 +214,19 @@ val dec_N : n -> char list
 
 val dec_nat : nat -> char list
 
+val is_digit : char -> bool
+
+val parse_N_acc : char list -> n -> n option
+
+val parse_N : char list -> n option
+
+val parse_Z : char list -> z option
+
 type sexp =
 | SAtom of char list
 | SList of sexp list
+
+val s_str : char list -> sexp
 
 val s_strs : char list list -> sexp
 
@@ -181,6 +245,12 @@ val d_str : sexp -> char list option
 val d_list : (sexp -> 'a1 option) -> sexp list -> 'a1 list option
 
 val d_strs : sexp -> char list list option
+
+val d_Z : sexp -> z option
+
+val d_nat : sexp -> nat option
+
+val d_bool : sexp -> bool option
 
 val bad_input : sexp
 
@@ -258,5 +328,192 @@ val builtin_names : (char list * char list) list
 val documented : char list list
 
 val math_env : menv
+
+val in_range : nat -> nat -> char -> bool
+
+val is_dig : char -> bool
+
+val is_oct : char -> bool
+
+val is_letter : char -> bool
+
+val is_word : char -> bool
+
+val head_word : char list -> bool
+
+val drop : nat -> char list -> char list
+
+val last_word : bool -> char list -> bool
+
+val all_chars : (char -> bool) -> char list -> bool
+
+val match_at : bool -> char list -> char list -> bool
+
+val is_empty : char list -> bool
+
+val first_alt :
+  bool -> (char list * char list) list -> bool -> char list ->
+  (char list * char list) option
+
+val sub_go :
+  (char list * char list) list -> bool -> nat -> char list -> char list
+
+val re_sub_alts : (char list * char list) list -> char list -> char list
+
+type titem =
+| TLit of char
+| TWhole
+
+val re_error : err
+
+val bs : char
+
+val oct_val : char -> nat
+
+val until_gt : char list -> char list option
+
+val is_identifier : char list -> bool
+
+val is_zero : char -> bool
+
+val simple_escape : char -> char option
+
+val escape_step : char -> char list -> (titem list * nat) result
+
+val tparse : nat -> char list -> titem list result
+
+val expand : titem list -> char list -> char list
+
+val re_sub_template : char list -> char list -> char list -> char list result
+
+val has_key0 : char list -> (char list * char list) list -> bool
+
+val build_lookup :
+  (char list * char list) list -> (char list * char list) list ->
+  (char list * char list) list
+
+val impl_subst : (char list * char list) list -> char list -> char list
+
+val seq_subst : (char list * char list) list -> char list -> char list result
+
+val tokenise : char list -> char list list
+
+val assoc0 : char list -> (char list * char list) list -> char list option
+
+val map_token : (char list * char list) list -> char list -> char list
+
+val spec_subst : (char list * char list) list -> char list -> char list
+
+type ctype = { ct_name : char list; ct_pdepth : nat; ct_const : bool }
+
+val stars : nat -> char list
+
+val ctype_str : ctype -> char list
+
+val result_type_str : ctype -> bool -> char list
+
+type cpp_spec = { sp_name : char list; sp_includes : char list list;
+                  sp_args : char list list; sp_code : char list list;
+                  sp_result : char list; sp_rtype : ctype; sp_is_coll : 
+                  bool; sp_method_obj : char list option }
+
+type cpp_value = { cv_includes : char list list; cv_libs : char list list;
+                   cv_args : char list list; cv_code : char list list;
+                   cv_result : char list; cv_rname : char list;
+                   cv_rtype : char list;
+                   cv_instance : (char list * char list) option;
+                   cv_fields : ((char list * char list) * char list) list }
+
+type call_style =
+| StyleFunc
+| StyleMethod of char list
+
+val build_value : cpp_spec -> call_style -> nat -> cpp_value result
+
+val unique_name : char list -> nat -> char list
+
+val add_unique : char list list -> char list list -> char list list
+
+val ends_semicolon : char list -> bool
+
+val arbitrary_statement : char list -> char list
+
+val set_var_line : char list -> char list -> char list
+
+type emitted = { em_decl : (char list * char list);
+                 em_includes : char list list; em_libs : char list list;
+                 em_block : char list list;
+                 em_class_vars : (char list * char list) list;
+                 em_book : char list list; em_result : char list;
+                 em_counter : nat }
+
+val map_result : ('a1 -> 'a2 result) -> 'a1 list -> 'a2 list result
+
+val process_node_with :
+  ((char list * char list) list -> char list -> char list result) ->
+  cpp_value -> char list -> char list list -> nat -> char list list ->
+  char list list -> emitted result
+
+val process_node :
+  cpp_value -> char list -> char list list -> nat -> char list list ->
+  char list list -> emitted result
+
+val process_node_seq :
+  cpp_value -> char list -> char list list -> nat -> char list list ->
+  char list list -> emitted result
+
+val render_call : emitted -> char list list
+
+type qexpr =
+| QName of char list
+| QLeaf of char list
+| QAttr of qexpr * char list
+| QCall of qexpr * qexpr list
+| QCpp of cpp_value * qexpr list
+| QNode of char list * qexpr list
+
+val find_spec : char list -> (char list * cpp_spec) list -> cpp_spec option
+
+val finder : (char list * cpp_spec) list -> qexpr -> qexpr result
+
+val d_pair : sexp -> (char list * char list) option
+
+val d_pairs : sexp -> (char list * char list) list option
+
+val s_pair : (char list * char list) -> sexp
+
+val run_resub : sexp -> sexp
+
+val run_subst : sexp -> sexp
+
+val run_seq : sexp -> sexp
+
+val run_spec : sexp -> sexp
+
+val run_tokens : sexp -> sexp
+
+val d_opt_str : sexp -> char list option option
+
+val d_ctype : sexp -> ctype option
+
+val d_spec : sexp -> cpp_spec option
+
+val d_style : sexp -> call_style option
+
+val d_field : sexp -> ((char list * char list) * char list) option
+
+val s_emitted : emitted -> sexp
+
+val run_call : sexp -> sexp
+
+val d_qexpr : nat -> sexp -> qexpr option
+
+val s_qexpr : qexpr -> sexp
+
+val sexp_depth : sexp -> nat
+
+val d_tbl_entry : sexp -> (char list * cpp_spec) option
+
+val run_finder : sexp -> sexp
 
 val dispatch : char list -> sexp -> sexp
